@@ -3,6 +3,8 @@ package props
 import (
 	"testing"
 
+	"verifh/refmqtt"
+
 	"github.com/pascaldekloe/mqtt"
 	"pgregory.net/rapid"
 	"verifh/sim"
@@ -102,6 +104,32 @@ func (h *H) faultActions(rt *rapid.T, fc *faultCounters) map[string]func(*rapid.
 			h.ScriptDial(outcomes...)
 			h.Act("dialScript %v", names)
 			fc.failedConnect++
+		},
+		// a Persistence failure placed exactly at a hand-over point: the
+		// PUBREL save after PUBREC, or the Delete after PUBACK/PUBCOMP
+		"failAckStore": func(rt *rapid.T) {
+			c := h.Current()
+			if c == nil {
+				rt.Skip("no connection")
+			}
+			owed := c.Owed()
+			if len(owed) == 0 {
+				rt.Skip("nothing owed")
+			}
+			switch owed[0].Kind {
+			case refmqtt.PUBREC:
+				h.Store.FailNext('S')
+			case refmqtt.PUBACK, refmqtt.PUBCOMP:
+				h.Store.FailNext('D')
+			default:
+				rt.Skip("not a publish acknowledgement")
+			}
+			h.Act("failAckStore on %s", owed[0])
+			h.App.Step()
+			c.Release(0)
+			h.settleInbound()
+			h.Store.ClearFaults()
+			fc.storeFault++
 		},
 		"storeFault": func(rt *rapid.T) {
 			kind := rapid.SampledFrom([]byte{'S', 'D', 'L'}).Draw(rt, "op")
